@@ -23,7 +23,7 @@ func init() {
 			"R3 operator/punctuation recognition (for every assignment of an operator kind the matched bytes equal the kind's spelling and the number of bytes skipped equals its length; the set of kinds equals the reference list; longest match first), " +
 			"R4 comment openers/terminators, R5 the dot-identifier trigger set, R6 character classifiers of package char. " +
 			"Decides: table agreement. Does not decide: the number automaton, the prefix x quote matrix, rejection of exactly the invalid inputs (control flow over bytes).",
-		Rules: []ruleFn{ruleC14R1, ruleC14R2, ruleC14R3, ruleC14R4, ruleC14R5, ruleC14R6, ruleC14R7, ruleC14R8, ruleC14R9, ruleC14R11, ruleC14R12, ruleC14R13, ruleC15R6},
+		Rules: []ruleFn{ruleC14R1, ruleC14R2, ruleC14R3, ruleC14R4, ruleC14R5, ruleC14R6, ruleC14R7, ruleC14R8, ruleC14R9, ruleC14R11, ruleC14R12, ruleC14R13, ruleC15R6, ruleC14R14},
 	})
 }
 
